@@ -143,6 +143,11 @@ def run(prop, tier, seed, t0, a):
             refused.append((k, str(e)))
             if a.verbose:
                 traceback.print_exc()
+    # canary: `false` must NOT be provable from the property's global axiom set
+    from .state import State as _State
+    eng.cur_key, eng.entry_syms = f"{prop}#axioms", {}
+    if eng.axioms_z3:
+        eng.oblige(f"{prop}#canary.axioms-consistent", _State(), z3.BoolVal(False), kind='vacuity-neg')
     obls = eng.obligations
     timeout = 20 if tier == 'quick' else 90     # sized so that verdicts do not flip when all cores are busy
     solver_wall = smt.discharge(obls, timeout_s=timeout, both=(tier == 'thorough'))
